@@ -28,7 +28,10 @@ diag_solver_real = partial(e7b.rule_diagonal_solver, complex_energies=False)  # 
 CORE = [e1b.rule_projection_pairs, e1b.rule_scope_flags, e2c.rule_product_by_order, e2c.rule_adjoint_fill, e2c.rule_cauchy_wiring,
         e4.rule_value_preserving, tv_shipped, e9.rule_runtime_support, e9.rule_exec_scope, e11.rule_helpers,
         # what the series H *is*: input normalisation of symbolic / list / dict Hamiltonians (Taylor coefficients, order keys)
-        e2b.rule_taylor, e2b.rule_key_normalisation]
+        e2b.rule_taylor, e2b.rule_key_normalisation,
+        # `every Hamiltonian accepted by block_diagonalize` includes implicit mode: the exact (direct) implicit solver and the
+        # projector it works with are part of what makes U†HU = H_tilde there (KPM is approximate and belongs to C06 / C16 only)
+        e7.rule_direct_solver, e7.rule_greens_function, e6.rule_projector, e6.rule_projector_call_sites, e8.rule_implicit_wiring]
 
 PROPS: dict[str, dict] = {}
 
